@@ -14,6 +14,14 @@ Translation validation with a PROVED checker + compiler models (DESIGN §7 C12):
 
 Case kinds: file (every shipped .co file — exhaustive), v2src / v1src (generated source text through the whole
 parser), v2ast / v1items (generated ASTs straight into the compilers; these carry the compiler differential).
+
+Phase 4 — the property speaks about every compiled flow the runtime ever executes, so there are runtime-level families:
+v2rt (histories on real RuntimeV2_x / LLMRails objects: fresh conversations, initialize_state again, AddFlowsAction, JSON
+round trip of the state, a second instance on the SAME RailsConfig object, reload; every live instance is inspected after
+every step), v2ast with `again` (initialize_flow twice on one FlowConfig / new FlowConfigs from the same parsed flows, with
+a differential against the Lean model of the repaired re-compilation), v1rt (Colang 1.0: shared RailsConfig, reload,
+conversation, flows added by _process_start_flow compared with the Lean model `dynamicFlow`).  Findings of these families
+carry a HISTORY CLASS in their signature (@added-flow, @reinitialized, @recompiled-ast, @clobbered).
 """
 import ast as pyast
 import contextlib
@@ -36,17 +44,24 @@ RULE = ("(1) EVERY .co file under the repository (exhaustive, both tiers), versi
         "(control flow, groups, start/await/activate, NLD, when/or when/else; depth <= 6) straight into expand_elements, compared with the Lean model Expand; (4) generated Colang 1.0 source "
         "(if/else if/else, while, break/continue, when/else when, label/goto, any, $x = ...) through the real parser; (5) generated CoYML item "
         "trees (depth <= 6, incl. undefined/duplicate checkpoints) straight into parse_flow_elements, compared with the Lean model V1Compile. "
+        "(6) runtime histories (3-7 steps: new / reload / conv / cont / reinit / add / json / gen) over generated 2.x configurations whose every flow has a while with "
+        "break/continue directly and nested in if/when, on real RuntimeV2_x (85 %) / LLMRails (15 %) objects, all live instances inspected after every step; "
+        "(7) 25 % of the AST cases additionally re-enter the compiler (initialize_flow twice / recompile the same parsed flows once or twice); "
+        "(8) Colang 1.0 histories (LLMRails on a shared RailsConfig, reload, generate, _process_start_flow with generated bodies). "
         "non-trivial = the compiled flow contains at least one jump target / relative offset; distinct = distinct case JSON.")
 TRUSTED_BASE = [
     "harness/props/C12.py: encoders real element -> Prim / Elem JSON (class name and four attributes per element), AST -> Stmt / Item converters, label canonicaliser",
     "Lean driver Drive/C12.lean (JSON codecs)",
     "Lark parser / Colang 1.0 line parser (used as they are to obtain the ASTs; not modelled)",
+    "runtime-level families: the adapter drives RuntimeV2_x.process_events / initialize_state / _add_flows_action / LLMRails.generate / RuntimeV1_0._process_start_flow directly (api=runtime skips the import of the library's action modules per instance); FakeLLM + md5 embedding engine",
     "the model of slide's look-ups (Closed.step) covers Goto/ForkHead/Abort/Break/Continue/CatchPatternFailure; MergeHeads' head_fork_uids look-up and scope bookkeeping are dynamic and only constrained statically (merge after fork, EndScope after BeginScope)",
 ]
 ASSUMPTIONS = [
     "Colang 2.x compiler model (Expand) covers if/elif/else, while/break/continue, match/send/start/await groups, start/await/activate/deactivate, NLD assignment, when/or when/else; it starts from the DNF computed by the real normalize_element_groups (C07) and does not model the aliasing of AST objects between the copies of then-/else-bodies (such ASTs: proved checkers + oracle only)",
     "scope pairing in `Closed` is on the linear element order; the per-path statement (no BeginScope met while the scope is held, no failing look-up) is proved per program by the certificate checker `pathSafe` on every real flow that opens a scope (<= 400 elements)",
     "a flow the loader rejects (syntax error, expansion error) is outside the property; such inputs are counted and listed",
+    "re-compilation of a parsed flow: the Lean theorem (`recompile_closed`) is about the REPAIRED compiler (fixes/C12-loop-exit-label-in-place.diff); the code as it is violates it inside the region of the open finding 2.x:dangling-target@recompiled-ast (`recompile_as_is_counterexample`) and satisfies `recompile_as_is_closed_partial` outside",
+    "generated v2rt programs are compiled, not executed (gated behind `match NeverSent()`): closedness is a static property of the flow configs the runtime holds; the corpus histories execute their loops",
 ]
 
 REPO = tu.REPO
@@ -429,6 +444,16 @@ def _rt_simple(rng, flows, in_loop, novars, st):
     return "pass"
 
 
+def _rt_when_spec(rng, flows, novars):
+    """a case of `when`: mostly an event; also a flow / an action that the case starts (refs are stored in the parsed spec)"""
+    r = rng.random()
+    if r < 0.15 and flows:
+        return rng.choice(flows)
+    if r < 0.25 and not novars:
+        return 'UtteranceBotAction(script="a")'
+    return rng.choice(RT_EVENTS) + "()"
+
+
 def _rt_block(rng, depth, in_loop, flows, ind, out, novars, st, after_else=False):
     pad = "  " * ind
     for j in range(rng.choice([1, 1, 2, 2, 3])):
@@ -449,10 +474,10 @@ def _rt_block(rng, depth, in_loop, flows, ind, out, novars, st, after_else=False
             st["loops"] += 1
             _rt_block(rng, depth - 1, True, flows, ind + 1, out, novars, st)
         elif depth > 0 and r < 0.60:
-            out.append(pad + "when " + rng.choice(RT_EVENTS) + "()" + rng.choice(["", "", " or " + rng.choice(RT_EVENTS) + "()"]))
+            out.append(pad + "when " + _rt_when_spec(rng, flows, novars) + rng.choice(["", "", " or " + rng.choice(RT_EVENTS) + "()", " and " + rng.choice(RT_EVENTS) + "()"]))
             _rt_block(rng, depth - 1, in_loop, flows, ind + 1, out, novars, st)
             for _ in range(rng.choice([0, 1, 1])):
-                out.append(pad + "or when " + rng.choice(RT_EVENTS) + "()")
+                out.append(pad + "or when " + _rt_when_spec(rng, flows, novars))
                 _rt_block(rng, depth - 1, in_loop, flows, ind + 1, out, novars, st)
             if rng.random() < 0.4:
                 out.append(pad + "else")
@@ -1023,10 +1048,29 @@ def _group_of(dnf, always_dict):
     return {"_type": "spec_or", "elements": [_spec_of(cl[0]) if len(cl) == 1 else {"_type": "spec_and", "elements": [_spec_of(a) for a in cl]} for cl in dnf]}
 
 
+def user_labels_of(elements):
+    """names of the labels the USER wrote (Label elements of the parsed AST, before any expansion)"""
+    A = _M["A"]
+    out = []
+    for e in elements or []:
+        if isinstance(e, A.Label):
+            out.append(e.name)
+        elif isinstance(e, A.If):
+            out += user_labels_of(e.then_elements) + user_labels_of(e.else_elements)
+        elif isinstance(e, A.While):
+            out += user_labels_of(e.elements)
+        elif isinstance(e, A.When):
+            for t in e.then_elements:
+                out += user_labels_of(t)
+            out += user_labels_of(e.else_elements)
+    return out
+
+
 def compile_v2_flows(flows, with_stmts, again=None):
     """real pipeline for a list of parsed Flow objects: FlowConfig -> initialize_flow (expand_elements + label table)"""
     sm, State = _M["sm"], _M["State"]
     stmts = {}
+    ulabels = {f.name: sorted(set(user_labels_of(f.elements))) for f in flows}
     if with_stmts:
         for f in flows:
             stmts[f.name] = stmts_of(f.elements)
@@ -1053,6 +1097,7 @@ def compile_v2_flows(flows, with_stmts, again=None):
             out.append(rec)
             continue
         rec.update(flow_record(cfg))
+        rec["user_labels"] = ulabels.get(name, [])
         if stmts.get(name) is not None:
             rec["stmts"] = stmts[name]
         out.append(rec)
@@ -1078,7 +1123,7 @@ def compile_v2_flows(flows, with_stmts, again=None):
             for name, cfg in cfgs2.items():
                 with _quiet():
                     sm.initialize_flow(state2, cfg)
-                out.append(dict(flow_record(cfg), id=name, snap=[k + 1, k + 1], cls="@recompiled-ast"))
+                out.append(dict(flow_record(cfg), id=name, snap=[k + 1, k + 1], cls="@recompiled-ast", recompiled=k + 1))
     return out
 
 
@@ -1256,6 +1301,7 @@ def run_v1rt(case):
             own.add(f["id"])
     insts = []
     seen = {}
+    dyn_items = {}
 
     def snapshot(step):
         views = [("config", {f["id"]: f["elements"] for f in config.flows if f["id"] in own})]
@@ -1267,7 +1313,10 @@ def run_v1rt(case):
                 if seen.get((vname, fid)) == elems:
                     continue
                 seen[(vname, fid)] = elems
-                obs["flows"].append({"id": fid, "elems": elems, "oracle": scan_v1(elements), "snap": [step, vname], "cls": "" if step == 0 else "@later"})
+                rec = {"id": fid, "elems": elems, "oracle": scan_v1(elements), "snap": [step, vname], "cls": "" if step == 0 else "@later"}
+                if vname.startswith("rt") and dyn_items.get((vname, fid)) is not None:
+                    rec["items"], rec["dyn"] = dyn_items[(vname, fid)], True  # compared with the Lean model `dynamicFlow`
+                obs["flows"].append(rec)
 
     for i, st in enumerate(case["steps"]):
         k = st[0]
@@ -1285,6 +1334,15 @@ def run_v1rt(case):
                     before = st[1] in rt.flow_configs
                     asyncio.run(rt._process_start_flow([{"type": "start_flow", "flow_id": st[1], "flow_body": st[2]}], []))
                     done = "dyn:" + ("kept" if before else "added" if st[1] in rt.flow_configs else "refused")
+                    if done == "dyn:added":
+                        import textwrap
+
+                        try:  # the CoYML items of the same body through the split pipeline (for the model `dynamicFlow`)
+                            body = "define flow " + st[1] + ":\n" + textwrap.indent(st[2], "  ")
+                            recs = compile_v1_source("dynamic.co", body)
+                            dyn_items[("rt%d" % (len(insts) - 1), st[1])] = recs[0].get("items") if len(recs) == 1 else None
+                        except Exception:  # noqa
+                            pass
                 else:
                     raise ValueError(k)
         except Exception as e:  # noqa
@@ -1494,6 +1552,8 @@ def run_impl(case):
         for f in obs["flows"]:
             if "cls" not in f:
                 f["stmts"] = case["stmts"]
+            elif f.get("recompiled") and not f["oracle"]:
+                f["stmts2"] = case["stmts"]  # compared with the model of the REPAIRED compiler's k+1-st compilation
         return obs
     if k in ("v2rt", "v1rt"):
         # these cases EXECUTE conversations: CPU-time watchdog (ITIMER_VIRTUAL, independent of the runner's wall-clock alarm)
@@ -1532,6 +1592,18 @@ def _wants_pathsafe(f):
     return len(f["prog"]) <= 400 and any(p[0] == "begin" for p in f["prog"]) and not f["oracle"]
 
 
+def _n_exits(stmts):
+    n = 0
+    for s in stmts:
+        if s[0] in ("break", "continue"):
+            n += 1
+        elif s[0] == "if":
+            n += _n_exits(s[1]) + _n_exits(s[2])
+        elif s[0] == "while":
+            n += _n_exits(s[1])
+    return n
+
+
 def model_requests(case, obs):
     reqs = []
     if obs.get("witness"):
@@ -1544,11 +1616,15 @@ def model_requests(case, obs):
                     reqs.append({"m": "C12.pathsafe", "prog": f["prog"]})
                 if "stmts" in f:
                     reqs.append({"m": "C12.expand", "stmts": f["stmts"]})
+                if "stmts2" in f:
+                    reqs.append({"m": "C12.recompile", "stmts": f["stmts2"], "k": f["recompiled"], "slots": _n_exits(f["stmts2"])})
+                if "user_labels" in f:
+                    reqs.append({"m": "C12.names", "user": f["user_labels"]})
         else:
             if "elems" in f:
                 reqs.append({"m": "C12.v1closed", "elems": f["elems"]})
             if "items" in f:
-                reqs.append({"m": "C12.v1compile", "items": f["items"]})
+                reqs.append({"m": "C12.v1dynamic" if f.get("dyn") else "C12.v1compile", "items": f["items"]})
     return reqs
 
 
@@ -1636,6 +1712,23 @@ def compare(case, obs, mouts):
                     a, b = canon_labels(m2["prog"]), canon_labels(f["prog"])
                     i = next((j for j in range(min(len(a), len(b))) if a[j] != b[j]), min(len(a), len(b)))
                     return f"flow {f['id']}: Expand model differs from expand_elements at element {i}: model {a[i:i+2]} vs real {b[i:i+2]} (lengths {len(a)}/{len(b)})"
+            if "stmts2" in f:
+                m3 = next(it)
+                a, b = canon_labels(m3["prog"]), canon_labels(f["prog"])
+                if a != b:
+                    i = next((j for j in range(min(len(a), len(b))) if a[j] != b[j]), min(len(a), len(b)))
+                    return f"flow {f['id']}: compilation no. {f['recompiled'] + 1} of the same parsed flow differs from the model of the (repaired) re-compilation at element {i}: model {a[i:i+2]} vs real {b[i:i+2]} (lengths {len(a)}/{len(b)})"
+            if "user_labels" in f:
+                m4 = next(it)
+                user = set(f["user_labels"])
+                for p in f["prog"]:
+                    if p[0] == "label" and p[1] not in user and not any(p[1].startswith(st) for st in m4["stems"]):
+                        return f"flow {f['id']}: the real compiler generated the label {p[1]!r} whose name begins with none of the reserved stems of the model ({m4['stems']}): expand_labels_stemmed no longer describes the code"
+                bad = [u for u, ok in zip(f["user_labels"], m4["ok"]) if not ok]
+                gen_names = [p[1] for p in f["prog"] if p[0] == "label" and p[1] not in user]
+                for u in bad:  # outside the hypothesis of expand_labels_avoid_user: only an actual capture is reported
+                    if u in gen_names:
+                        return f"flow {f['id']}: user label {u!r} equals a generated label name"
         else:
             if "elems" in f:
                 m = next(it)
@@ -1654,7 +1747,7 @@ def compare(case, obs, mouts):
                     b = [[e["k"], e["n"], e["e"], e["b"], e["c"], e["h"], e["a"]] for e in f["elems"]]
                     if a != b:
                         i = next((j for j in range(min(len(a), len(b))) if a[j] != b[j]), min(len(a), len(b)))
-                        return f"flow {f['id']}: V1Compile model differs from parse_flow_elements at element {i}: model {a[i:i+1]} vs real {b[i:i+1]} (lengths {len(a)}/{len(b)})"
+                        return f"flow {f['id']}: V1Compile model{' (dynamicFlow = start_flow :: compileFull)' if f.get('dyn') else ''} differs from the real elements at element {i}: model {a[i:i+1]} vs real {b[i:i+1]} (lengths {len(a)}/{len(b)})"
     return None
 
 
@@ -1744,6 +1837,10 @@ def tags(case, obs):
             t.append("v2:len<10" if n < 10 else "v2:len<50" if n < 50 else "v2:len<200" if n < 200 else "v2:len>=200")
             if "stmts" in f:
                 t.append("v2:expand-differential")
+            if "stmts2" in f:
+                t.append("v2:recompile-differential")
+            if f.get("user_labels"):
+                t.append("v2:user-labels")
             if f.get("oracle_paths"):
                 t.append("v2:path-scope-problem")
         if "elems" in f:
@@ -1756,7 +1853,7 @@ def tags(case, obs):
             n = len(f["elems"])
             t.append("v1:len<10" if n < 10 else "v1:len<50" if n < 50 else "v1:len>=50")
             if "items" in f:
-                t.append("v1:compile-differential")
+                t.append("v1:dynamic-flow-differential" if f.get("dyn") else "v1:compile-differential")
     return t
 
 
